@@ -58,6 +58,10 @@ class CovLift:
         self.values = values or {}      # shadow values of the variance symbols (DART)
         self.contract = []
         self.calls = 0
+        # the stub's symbols must differ between lifts that differ: two lifts in one query (scale 1 and scale 4) sharing the name X0_i_j would assert
+        # X = TXT' + PVP' and X = TXT' + 4PVP' of the SAME X, forcing V = 0 and making every claim vacuous
+        # (names are a function of the scale, so that repeated runs of one structure -- path enumeration -- use the same symbols)
+        self.tag = f"s{scale}"
 
     def __enter__(self):
         m, outer = self.m, self
@@ -83,7 +87,7 @@ class CovLift:
                 Xf = np.full((n, n), 0.5)
             for i in range(n):
                 for j in range(i, n):
-                    X[i, j] = X[j, i] = S.sym(f"X{c}_{i}_{j}", Fraction(float(Xf[i, j])))
+                    X[i, j] = X[j, i] = S.sym(f"X{outer.tag}_{c}_{i}_{j}", Fraction(float(Xf[i, j])))
             R = A.astype(object) @ X @ A.T.astype(object) + Q
             for i in range(n):
                 for j in range(i, n):
@@ -207,7 +211,9 @@ def check_model(run, ir, zm, order):
     syms = {str(v.t): v for v in L.vu + L.vw}
     box = [z3.And(v.t >= 0, v.t <= 1) for v in syms.values()]
     assume = box + L.contract + L4.contract + [path.condition(), path4.condition()]
-    r0, _ = run.check_sat(assume, timeout_ms=30000)
+    # reachability witness in the INTERIOR (every variance clearly positive): a witness with all variances zero would hide a contract
+    # that is only satisfiable there
+    r0, _ = run.check_sat(assume + [v.t >= Fraction(1, 4) for v in syms.values()], timeout_ms=30000)
     if r0 != "sat" or not claims:
         run.unknown(key, f"reachability witness {r0} / {len(claims)} claims")
         return
@@ -395,7 +401,7 @@ def check_variants(run, ir, zm, order):
     syms = {str(v.t): v for v in allv}
     box = [z3.And(v.t >= 0, v.t <= 1) for v in syms.values()]
     assume = box + L.contract + [path.condition()]
-    r0, _ = run.check_sat(assume, timeout_ms=30000)
+    r0, _ = run.check_sat(assume + [v.t >= Fraction(1, 4) for v in syms.values()], timeout_ms=30000)
     if r0 != "sat" or not claims:
         run.unknown(key, f"reachability witness {r0} / {len(claims)} claims")
         return
